@@ -1,5 +1,8 @@
 import UsualProofs.C01.Unlink
 import UsualProofs.C01.LogInv
+import UsualProofs.C01.StepStuck
+import UsualProofs.C01.StepFuel
+import UsualProofs.C01.Released
 /-!
 # C01 — talloc: an object lives exactly while some parent or reference holds it
 
@@ -10,8 +13,13 @@ behaviour of the code as pinned (`Cfg.old`) is refuted by `…_old_counterexampl
 Reading guide
 * `State` = heap of chunks (user objects, TRef chunks, `.memlimit` chunks) addressed by ids, the
   registered null context, the destructor/release log, and two ghost flags (`oof`: fuel of a
-  model recursion exhausted; `stuck`: the `list_for_each_safe` protocol assertion failed).  Both
-  flags are printed by the driver on every state of every correspondence run and were never set.
+  model recursion exhausted; `stuck`: the `list_for_each_safe` protocol assertion failed).
+  Both are PROVED never to be set by an operation on a well-formed state: `no_stuck` (the cursor
+  of `free_children` is never lost and `free_children(ptr, true)` leaves no child behind) and
+  `fuel_suffices` (the fuel `8 * heap.length + 16` the operations start from is enough for every
+  recursion of the model); the theorems below carry no hypothesis about them beyond "clear in
+  the state before", which holds in every reachable state.  The driver also prints both flags
+  on every state of every correspondence run (never set).
 * `wfOK : State → Bool` (lean/Usual/C01/Observe.lean) is the structural invariant, evaluated by
   the driver on every state: child lists ↔ parent fields, TRef chunks ↔ `refs` entries, no
   dangling id, internal chunks are leaves in front of the plain children, no FLAG_PENDING left.
@@ -34,26 +42,52 @@ example : wfOK (runOps Cfg.fixed {} [.alloc none 8 false false, .alloc (some 0) 
 on a well-formed state with an acyclic holder graph, with arguments inside the property's
 quantifier, gives a well-formed state with an acyclic holder graph — child lists and parent
 fields agree, TRef chunks and reference lists agree, no id dangles, no FLAG_PENDING survives,
-for any placement of references and refusing destructors. -/
+for any placement of references and refusing destructors.  The two ghost flags of the model are
+clear before the operation (they are in every reachable state) and, by `no_stuck` and
+`fuel_suffices`, clear afterwards — part of the conclusion. -/
 theorem wf_step (s : State) (op : Op) (rk : Nat → Nat)
-    (hwf : wfOK s = true) (hrk : Ranked rk s) (hop : OpOK rk s op)
-    (hoof : (step Cfg.fixed s op).1.oof = false) (hstuck : (step Cfg.fixed s op).1.stuck = false) :
-    wfOK (step Cfg.fixed s op).1 = true ∧ ∃ rk', Ranked rk' (step Cfg.fixed s op).1 := by
+    (hwf : wfOK s = true) (hrk : Ranked rk s) (hop : OpOK rk s op) (hst : s.stuck = false)
+    (hoo : s.oof = false) :
+    wfOK (step Cfg.fixed s op).1 = true ∧ (∃ rk', Ranked rk' (step Cfg.fixed s op).1) ∧
+    (step Cfg.fixed s op).1.stuck = false ∧ (step Cfg.fixed s op).1.oof = false := by
+  have hoof := step_oof Cfg.fixed rfl op ((wfOK_iff s).1 hwf) hrk hop hst hoo
+  have hstuck := step_stuck Cfg.fixed rfl op ((wfOK_iff s).1 hwf) hrk hop hst hoof
   obtain ⟨h1, h2⟩ := step_wf Cfg.fixed rfl op ((wfOK_iff s).1 hwf) hrk hop hoof hstuck
-  exact ⟨(wfOK_iff _).2 h1, h2⟩
+  exact ⟨(wfOK_iff _).2 h1, h2, hstuck, hoof⟩
 
-/-- states reachable by operations inside the quantifier (ghost flags clear) -/
+/-- **fuel_suffices**: on a well-formed state with an acyclic holder graph no recursion of the
+model — the mutual recursion of `_talloc_free` / `_talloc_unlink` / `free_children`, the climbs of
+`apply_memlimit` and `throw_child`, the walk of `memlimit_walk` — exhausts the fuel
+`8 * heap.length + 16` a public operation starts with (free needs at most
+`5 * (live chunks in the subtree)`, the climbs and walks at most the height of the tree). -/
+theorem fuel_suffices (s : State) (op : Op) (rk : Nat → Nat)
+    (hwf : wfOK s = true) (hrk : Ranked rk s) (hop : OpOK rk s op) (hst : s.stuck = false)
+    (hoo : s.oof = false) : (step Cfg.fixed s op).1.oof = false :=
+  step_oof Cfg.fixed rfl op ((wfOK_iff s).1 hwf) hrk hop hst hoo
+
+/-- **no_stuck**: the `list_for_each_safe` protocol of `free_children` holds in every operation on
+a well-formed state: the prefetched cursor is still a child of the context when the loop
+returns to it (whatever the body freed, promoted to a referencing context or handed to an
+ancestor by `throw_child`), and `free_children(ptr, true)` leaves no child behind when
+`_talloc_free` releases `ptr`.  The ghost flag that records a violation is never set. -/
+theorem no_stuck (s : State) (op : Op) (rk : Nat → Nat)
+    (hwf : wfOK s = true) (hrk : Ranked rk s) (hop : OpOK rk s op) (hst : s.stuck = false)
+    (hoo : s.oof = false) : (step Cfg.fixed s op).1.stuck = false :=
+  (wf_step s op rk hwf hrk hop hst hoo).2.2.1
+
+/-- states reachable by operations inside the quantifier -/
 inductive Reach : State → Prop
   | init : Reach {}
   | step (s : State) (op : Op) (rk : Nat → Nat) : Reach s → Ranked rk s → OpOK rk s op →
-      (step Cfg.fixed s op).1.oof = false → (step Cfg.fixed s op).1.stuck = false →
       Reach (step Cfg.fixed s op).1
 
-/-- **wf_reachable**: the invariant holds in every reachable state (induction over op lists). -/
-theorem wf_reachable (s : State) (h : Reach s) : wfOK s = true ∧ ∃ rk, Ranked rk s := by
+/-- **wf_reachable**: the invariant holds in every reachable state (induction over op lists), and
+both ghost flags are clear. -/
+theorem wf_reachable (s : State) (h : Reach s) :
+    wfOK s = true ∧ (∃ rk, Ranked rk s) ∧ s.stuck = false ∧ s.oof = false := by
   induction h with
-  | init => exact ⟨wf_init.1, fun _ => 0, wf_init.2 _⟩
-  | step s op rk _ hrk hop hoof hstuck ih => exact wf_step s op rk ih.1 hrk hop hoof hstuck
+  | init => exact ⟨wf_init.1, ⟨fun _ => 0, wf_init.2 _⟩, rfl, rfl⟩
+  | step s op rk _ hrk hop ih => exact wf_step s op rk ih.1 hrk hop ih.2.2.1 ih.2.2.2
 
 /-- non-vacuity: a refusing destructor under a `talloc_from_cx` root (the F15 history) is inside
 the quantifier, runs with clear flags and ends well formed -/
@@ -116,27 +150,53 @@ example :
       .unlink (some 1) 3]
     (s.get 3).map (·.parent) = some (some 2) ∧ (s.get 3).map (·.refs) = some [] := by decide
 
-/-- **unlink_last_releases** (`_partial`: the object itself): when the last link goes — no
-reference, `ctx` is the primary parent — and the destructor accepts, the call answers 0, the
-object is released and the heap is well formed again (so every descendant is either released
-or attached to a live context).
-
-Full statement `unlink_last_releases`: additionally, every descendant without another holder
-and with an accepting destructor is released, and a descendant with another reference ends up
-child of the (first) referencing context.  Missing: the characterisation of the whole released
-set; the per-object facts follow from `wf_step` (nothing dangles), `unlink_primary_keeps`
-(promotion) and the correspondence run. -/
-theorem unlink_last_releases_partial (s : State) (rk : Nat → Nat) (hwf : wfOK s = true) (hrk : Ranked rk s)
+/-- **unlink_last_releases**: when the last link of `o` goes — no reference, `ctx` is the primary
+parent — and every destructor in the subtree of `o` accepts, then
+* the call answers 0 and the heap is well formed again;
+* `o` and EVERY descendant that is reached from `o` through objects without references of their
+  own (`Clean s o y`: user objects, their TRef chunks, `.memlimit` chunks) is released;
+* everything outside the subtree (TRef chunks aside — those that point into the subtree are
+  released with their targets' promotion) is untouched: still live, same parent, same destructor,
+  and it keeps every such child.
+A descendant `z` that has references of its own is not released by this call: `_talloc_unlink`
+makes the context of its first reference its parent (`unlink_primary_keeps` is that step), with
+the subtree of `z` hanging under it; if that context is itself inside the subtree being freed,
+`z` is visited again when the context is freed.  `wf_step` guarantees that whatever survives
+hangs under a live context; the final parent of such a `z` after several promotions is not
+characterised in one theorem.  `Clean`, `AllAccept`: UsualProofs/C01/Released.lean. -/
+theorem unlink_last_releases (s : State) (rk : Nat → Nat) (hwf : wfOK s = true) (hrk : Ranked rk s)
     (ctx : Option Id) (o : Nat) (ob : Obj) (hob : s.get o = some ob) (hk : ob.kind = .plain)
     (hnull : s.nullCtx ≠ some o) (hprim : ob.parent = orNull s ctx) (hrefs : ob.refs = [])
-    (hacc : (dtorStep ob.dtor).1 = true)
-    (hoof : (step Cfg.fixed s (.unlink ctx o)).1.oof = false)
-    (hstuck : (step Cfg.fixed s (.unlink ctx o)).1.stuck = false) :
-    (step Cfg.fixed s (.unlink ctx o)).2 = 0 ∧ (step Cfg.fixed s (.unlink ctx o)).1.get o = none ∧
-    wfOK (step Cfg.fixed s (.unlink ctx o)).1 = true := by
-  obtain ⟨h1, h2, h3⟩ := unlink_last_releases Cfg.fixed rfl ((wfOK_iff s).1 hwf) hrk ctx o ob hob hk hnull
-    hprim hrefs hacc hoof hstuck
-  exact ⟨h1, h2, (wfOK_iff _).2 h3⟩
+    (hst : s.stuck = false) (hoo : s.oof = false) (hacc : AllAccept s o) :
+    (step Cfg.fixed s (.unlink ctx o)).2 = 0 ∧ wfOK (step Cfg.fixed s (.unlink ctx o)).1 = true ∧
+    (∀ y, Clean s o y → (step Cfg.fixed s (.unlink ctx o)).1.get y = none) ∧
+    (∀ (y : Nat) yb, s.get y = some yb → ¬ InSub s o y → ¬ isRefAt s y →
+      ∃ yb', (step Cfg.fixed s (.unlink ctx o)).1.get y = some yb' ∧ yb'.parent = yb.parent ∧
+        yb'.dtor = yb.dtor ∧ ∀ z ∈ yb.children, ¬ InSub s o z → ¬ isRefAt s z → z ∈ yb'.children) := by
+  have w := (wfOK_iff s).1 hwf
+  have i : Inv rk s := ⟨w.toWFp, hrk⟩
+  have hop : OpOK rk s (.unlink ctx o) := ⟨ob, hob, hk, hnull⟩
+  have hoof := step_oof Cfg.fixed rfl (.unlink ctx o) w hrk hop hst hoo
+  have hstuck := step_stuck Cfg.fixed rfl (.unlink ctx o) w hrk hop hst hoof
+  obtain ⟨h1, -⟩ := step_wf Cfg.fixed rfl (.unlink ctx o) w hrk hop hoof hstuck
+  obtain ⟨hrc, hgone⟩ := (run_released Cfg.fixed rfl rk s.fuel).2.1 s ctx o ob i hob hk hrefs (w.noPending o ob hob)
+    hprim hnull (pendBelow_of_wf w _ _) (pendNR_of_wf w _) hst hacc hoof
+  obtain ⟨-, hkeep, -⟩ := (run_out Cfg.fixed rfl rk s.fuel).2.1 s ctx o ob i hob hk (w.noPending o ob hob)
+    hprim hnull (pendBelow_of_wf w _ _) (pendNR_of_wf w _) hst hoof
+  refine ⟨hrc, (wfOK_iff _).2 h1, hgone, ?_⟩
+  intro y yb hy hout hnr
+  obtain ⟨yb', g1, g2, -, g4, -⟩ := hkeep.keep y yb ⟨hout, hnr⟩ hy
+  exact ⟨yb', g1, g2, (hkeep.fields y yb yb' ⟨hout, hnr⟩ hy g1).1, fun z hz h1 h2 => g4 z hz ⟨h1, h2⟩⟩
+
+/-- non-vacuity: a subtree with a child, a grandchild, a TRef chunk and a `.memlimit` chunk, all
+reached without passing a referenced object, is released completely; a sibling keeps its place -/
+example :
+    let s := runOps Cfg.fixed {} [.alloc none 0 false false, .alloc (some 0) 9 false false,
+      .alloc (some 1) 9 false false, .alloc (some 2) 9 false false, .alloc (some 0) 1 false false,
+      .reference (some 1) 4 false, .setLimit 2 5000 false, .setDtor 3 .accept]
+    let s' := (step Cfg.fixed s (.unlink (some 0) 1)).1
+    s'.live 1 = false ∧ s'.live 2 = false ∧ s'.live 3 = false ∧ s'.live 5 = false ∧ s'.live 6 = false ∧
+    s'.live 4 = true ∧ (s'.get 4).map (·.parent) = some (some 0) ∧ (s'.get 4).map (·.refs) = some [] := by decide
 
 example :
     let s := runOps Cfg.fixed {} [.alloc none 0 false false, .alloc (some 0) 9 false false,
@@ -182,7 +242,7 @@ example :
 theorem reach_logInv (s : State) (h : Reach s) : LogInv s := by
   induction h with
   | init => exact logInv_empty
-  | step s op rk _ _ _ _ _ ih => exact step_logInv Cfg.fixed s op ih
+  | step s op rk _ _ _ ih => exact step_logInv Cfg.fixed s op ih
 
 /-- **dtor_exactly_once** — for EVERY history of public operations from the empty heap, with any
 arguments and in either configuration of the model (no well-formedness hypothesis,
